@@ -164,6 +164,8 @@ def gossip_family(w, pid, corrupt, corrupt_what, extra_kinds=(), mc=None, assump
     if q:
         kinds = [("mixA", dict(traces=6, n=0, steps=110, sched="mix")),
                  ("mixB", dict(traces=4, n=4, steps=160, sched="mix")),
+                 ("flt", dict(traces=8, n=0, steps=220, sched="faults-mix")),
+                 ("flu", dict(traces=8, n=0, steps=220, sched="faults-mix")),
                  ("bdgr", dict(traces=2, n=3, steps=120, sched="random", store="badger", cache=200))]
     else:
         kinds = [("mix%d" % i, dict(traces=10, n=0, steps=220, sched="mix")) for i in range(6)] + \
@@ -171,9 +173,18 @@ def gossip_family(w, pid, corrupt, corrupt_what, extra_kinds=(), mc=None, assump
                 [("n7", dict(traces=4, n=7, steps=400, sched="mix")),
                  ("n5", dict(traces=6, n=5, steps=300, sched="mix")),
                  ("bdgr", dict(traces=6, n=4, steps=250, sched="mix", store="badger", cache=300)),
-                 ("bdgs", dict(traces=4, n=3, steps=250, sched="random", store="badger", cache=150))]
+                 ("bdgs", dict(traces=4, n=3, steps=250, sched="random", store="badger", cache=150))] + \
+                [("flt%d" % i, dict(traces=10, n=0, steps=260, sched="faults-mix")) for i in range(4)] + \
+                [("fltb", dict(traces=6, n=4, steps=260, sched="faults-mix", store="badger", cache=300))]
     kinds += list(extra_kinds)
     traces, sums = drive_all(w, gossip_specs(w, kinds))
+    # recorded DAGs re-fed to bare hashgraph instances with transient store write
+    # failures in the commit path (frame-write outage that piles up decided
+    # rounds, then one more failure while several rounds are processed in one pass)
+    okinds = [("ordf", dict(traces=4, n=0, steps=90))] if q else \
+             [("ordf%d" % i, dict(traces=6, n=0, steps=150, arg="thorough")) for i in range(3)]
+    t3, s3 = drive_all(w, gossip_specs(w, okinds), mode="orders")
+    traces, sums = traces + t3, sums + s3
     tvs = w.validate_many(traces, par=6 if q else 8)
     violations, known_hits, drift = judge(w, pid, tvs, known)
     st = None
@@ -221,6 +232,26 @@ def plan_C01(w):
 
 def plan_C02(w):
     return gossip_family(w, "C02", c02_corrupt, "stored block 0 digest altered after delivery")
+
+
+def c05_corrupt(d):
+    # a delivered block carries a transaction nobody submitted
+    if d.get("a") == "Sync":
+        for b in d["o"].get("blocks", []):
+            if b["txs"]:
+                b["txs"][0] = "t-forged"
+                return True
+    return False
+
+
+def plan_C05(w):
+    q = Q(w)
+    extra = [("lossyA", dict(traces=6 if q else 12, n=0, steps=180 if q else 300, sched="lossy-mix", txp=0.5)),
+             ("lossyB", dict(traces=3 if q else 8, n=4, steps=200 if q else 350, sched="lossy-random", txp=0.6))]
+    return gossip_family(w, "C05", c05_corrupt, "a transaction id in a delivered block replaced by one that was never submitted",
+                         extra_kinds=extra,
+                         assumptions=["injected faults: responses that lost an event in transit (the sync fails midway), sync-limit truncation, transient store write failures (first write of a new event, SetBlock, SetFrame, AddConsensusEvent); a node that suffered a store fault is no longer compared with the others (C01/C03) but its own delivery and pools still are",
+                                      "the application's commit callback does not fail in these runs"])
 
 
 def plan_C04(w):
@@ -327,6 +358,7 @@ def plan_C19(w):
 
 
 PLANS = {
+    "C05": plan_C05,
     "C03": plan_C03,
     "C18": plan_C18,
     "C19": plan_C19,
